@@ -395,6 +395,34 @@ def rule_R16(text, deltas):
     raise AssembleError('R16 does not apply (no `X.extend(IT.map(|PAT| E));`)')
 
 
+def rule_R17(text, deltas):
+    """`for X in (E).chunks(N) {`  ->  the same walk written out (a last short chunk included, as `chunks` yields it):
+    `let verif_sl = E; let mut verif_ci: usize = 0; while verif_ci < verif_sl.len() {
+       let verif_ce = if verif_sl.len() - verif_ci < N { verif_sl.len() } else { verif_ci + N };
+       let X = &verif_sl[verif_ci..verif_ce]; verif_ci = verif_ce;`   (core::slice::Chunks has no Verus spec)"""
+    toks = code_tokens(text)
+    T = lambda j: text[toks[j][1]:toks[j][2]]
+    for j in range(len(toks) - 8):
+        if T(j) == 'for' and toks[j + 1][0] == 'ident' and T(j + 2) == 'in' and T(j + 3) == '(':
+            c = match_close(text, toks, j + 3)
+            if c + 3 < len(toks) and T(c + 1) == '.' and T(c + 2) == 'chunks' and T(c + 3) == '(':
+                c2 = match_close(text, toks, c + 3)
+                if T(c2 + 1) != '{':
+                    continue
+                e = text[toks[j + 3][2]:toks[c][1]].strip()
+                n = text[toks[c + 3][2]:toks[c2][1]].strip()
+                x = T(j + 1)
+                a, z = toks[j][1], toks[c2 + 1][2]
+                ind = text[text.rfind('\n', 0, a) + 1:a]
+                ind = ind if not ind.strip() else ''
+                new = ('let verif_sl = %s;\n%slet mut verif_ci: usize = 0;\n%swhile verif_ci < verif_sl.len() {\n'
+                       '%s    let verif_ce = if verif_sl.len() - verif_ci < %s { verif_sl.len() } else { verif_ci + %s };\n'
+                       '%s    let %s = &verif_sl[verif_ci..verif_ce];\n%s    verif_ci = verif_ce;') % (e, ind, ind, ind, n, n, ind, x, ind)
+                deltas.append(dict(rule='R17', original=text[a:z], rewritten=new))
+                return text[:a] + new + text[z:]
+    raise AssembleError('R17 does not apply (no `for X in (E).chunks(N) {`)')
+
+
 def name_return(sig, binder):
     """`-> T` -> `-> (binder: T)`"""
     toks = code_tokens(sig)
@@ -487,6 +515,8 @@ def expand_fn(fs, assumed_override=False, notes=None):
             body = rule_R15(body, deltas)
         if 'R16' in fs.rules:
             body = rule_R16(body, deltas)
+        if 'R17' in fs.rules:
+            body = rule_R17(body, deltas)
         for (rule, frm, to, cnt) in fs.subs:
             k = body.count(frm)
             if cnt == 'last' and k >= 1:
